@@ -20,7 +20,8 @@ every completed line; `spans` = [(kind, start, end)] byte offsets of banner / pr
 LoginSimTransport / AsyncLoginSimTransport add to the shared Sim transports: a scripted clock (FakeClock, installed
 into scrapli's channel modules by `install_clock()`), a budget of empty reads (on_empty="empty": each empty read
 advances the clock by the next `dts` entry, then SimStall = "would run into the timeout"), EOF after the device
-closed (eof="raise": ScrapliConnectionError, eof="empty": b"" like TelnetTransport), and `tape` = the exact read
+closed (eof="raise": ScrapliConnectionError, eof="empty": b""), transient connection errors at scripted read numbers
+(err_at), and `tape` = the exact read
 results with the elapsed time of each, which is what the Lean model is run on."""
 import asyncio
 import datetime as _dt
@@ -238,12 +239,21 @@ class LoginDevice:
 
 # ------------------------------------------------------------------------------------------- transports
 class _LoginCore:
-    def _init_login(self, clock=None, dts=(), eof="raise", budget=12):
+    def _init_login(self, clock=None, dts=(), eof="raise", budget=12, err_at=()):
         self.clock = clock or FakeClock()
         self.dts = list(dts)          # clock advance of the successive empty reads; afterwards 1 each
         self.eof = eof
         self.budget = budget          # empty reads / EOF errors allowed before the run counts as stalled
         self.tape: list = []          # ("c", bytes, elapsed) | ("E",)
+        self.err_at = set(err_at)     # read numbers (1-based) at which a TRANSIENT connection error is raised: nothing is
+                                      # consumed, the device stays as it is (e.g. an OSError from recv mapped by the transport)
+
+    def _transient(self) -> None:
+        """raise the scripted transient ScrapliConnectionError for this read, if any"""
+        if len(self.tape) + 1 in self.err_at:
+            self.tape.append(("E",))
+            self.trace.append(("E",))
+            raise ScrapliConnectionError("encountered error reading from transport, connection lost: TimeoutError('timed out')")
 
     def _idle(self):
         """called when read() finds nothing buffered; returns b"" or raises"""
@@ -263,12 +273,14 @@ class _LoginCore:
 
 
 class LoginSimTransport(_LoginCore, SimTransport):
-    def __init__(self, base_transport_args, device, cuts=None, faults=None, on_empty="stall", clock=None, dts=(), eof="raise", budget=12):
+    def __init__(self, base_transport_args, device, cuts=None, faults=None, on_empty="stall", clock=None, dts=(), eof="raise", budget=12,
+                 err_at=()):
         SimTransport.__init__(self, base_transport_args, device, cuts=cuts, on_empty=on_empty)
-        self._init_login(clock, dts, eof, budget)
+        self._init_login(clock, dts, eof, budget, err_at)
 
     def read(self) -> bytes:
         self._pre_read()
+        self._transient()
         if not self.buf:
             return self._idle()
         chunk = self._take()
@@ -277,12 +289,14 @@ class LoginSimTransport(_LoginCore, SimTransport):
 
 
 class AsyncLoginSimTransport(_LoginCore, AsyncSimTransport):
-    def __init__(self, base_transport_args, device, cuts=None, faults=None, on_empty="stall", clock=None, dts=(), eof="raise", budget=12):
+    def __init__(self, base_transport_args, device, cuts=None, faults=None, on_empty="stall", clock=None, dts=(), eof="raise", budget=12,
+                 err_at=()):
         AsyncSimTransport.__init__(self, base_transport_args, device, cuts=cuts, on_empty=on_empty)
-        self._init_login(clock, dts, eof, budget)
+        self._init_login(clock, dts, eof, budget, err_at)
 
     async def read(self) -> bytes:
         self._pre_read()
+        self._transient()
         if not self.buf:
             r = self._idle()
             await asyncio.sleep(0)
